@@ -21,7 +21,7 @@ RULES = {
           "the old-API finally also resets text attributes (SGR_DEFAULT) - written unconditionally (not under a test, not multiplied by or selected on a flag)",
     "R2": "every write of a render output in a draw path is inside a try whose handlers certainly catch the required interruption "
           "classes (old API: KeyboardInterrupt and Exception; new API: KeyboardInterrupt) and call the style's interrupted-draw hook on "
-          "every path through the handler; the flush that delivers the write lies in the same protected try (keyword flush=True, or a later unconditional flush in the try body)",
+          "every path through the handler; the flush that delivers the write lies in the same protected try (keyword flush=True, or a later unconditional flush in the try body); an override of the animation driver writes no APC/OSC/DCS control string outside a try that catches KeyboardInterrupt and Exception",
     "R3": "every GraphicsImage subclass overrides _handle_interrupted_draw; the string it prints starts with ST (twice, for konsole), is "
           "flushed, and - for the style whose transmissions are chunked - contains KITTY_END_CHUNKED; KITTY_END_CHUNKED is sent unconditionally (not multiplied by / selected on a flag)",
     "R4": "restores: _display_animated saves _seek_position before its try, every use of the frame generator is inside that try, and the "
